@@ -450,7 +450,7 @@ def run(ctx):
             ctx.count("qnwgamma")
             for kind, det in check_rule_1d(x, w, 0, None, mom_gamma(a, sc, 2 * n - 1), Fraction(1, 10**6), True):
                 fail("gamma_" + kind, "qnwgamma: %s" % det, inp, [[float(v) for v in x], [float(v) for v in w]])
-            for i in (pick(rng, n, thorough) if rep < 2 else []):
+            for i in (pick(rng, n, thorough) if (rep == 0 or n <= 12 or (thorough and rep < 2)) else []):
                 gcases.append(tup(natlit(n), qlit(a - 1), qlit(x[i] / sc), qlit(w[i])))
                 gmeta.append(dict(inp, node=i))
     ok = "fun c => let '(n, a, b, z, w) := c in node_ok %s %s (jac_node n a b z) w" % (T13, T6)
